@@ -249,6 +249,54 @@ def check_binding(B, m, tag, times, rename=None, outputs=None, reduced=None,
                             B.uf('D%d:F[%s|%s|%r|%s]' % (
                                 j, sig, on, round(float(t), 9), pname),
                                 *args2))
+        # histories with the sensitivities left switched on: swap which
+        # parameter is fixed in one call (same number fixed), then release
+        # everything; the array must follow the free set of the moment
+        state = {i: fixed[pub[i]] for i in reduced}
+        steps = []
+        if free:
+            steps.append(('swap', {pub[reduced[0]]: None,
+                                   pub[free[0]]: B.var('fixswap')}))
+        steps.append(('release all', None))
+        for label, d in steps:
+            if d is None:
+                d = {pub[i]: None for i in state}
+            r.fix_parameters(d)
+            for nm, v in d.items():
+                i = pub.index(nm)
+                if v is None:
+                    state.pop(i, None)
+                else:
+                    state[i] = v
+            free2 = [i for i in range(n) if i not in state]
+            B.fact('%s: after %s: names = free names in order' % (tag, label),
+                   r.parameters() == [pub[i] for i in free2],
+                   repr(r.parameters()))
+            B.fact('%s: after %s: sensitivities still enabled' % (tag, label),
+                   r.has_sensitivities())
+            if not r.has_sensitivities():
+                break
+            q2 = [p[i] for i in free2]
+            val3 = dict(val)
+            for i, v in state.items():
+                val3[myo[i]] = v
+            _, _, args3 = reference_args(B, model, val3)
+            args3 = args3 + list(pargs)
+            y5, s5 = r.simulate(ps.arr(B, q2), times)
+            B.fact('%s: after %s: sensitivity shape' % (tag, label),
+                   np.shape(s5) == (len(times), len(outs), len(free2)),
+                   repr(np.shape(s5)))
+            if np.shape(s5) != (len(times), len(outs), len(free2)):
+                continue
+            for k, t in enumerate(times):
+                for o, on in enumerate(outs):
+                    for qi, i in enumerate(free2):
+                        j = order.index(myo[i])
+                        B.eq('%s: after %s: sens[t=%s, %s, d/d %s]' % (
+                            tag, label, t, on, pub[i]), s5[k][o][qi],
+                            B.uf('D%d:F[%s|%s|%r|%s]' % (
+                                j, sig, on, round(float(t), 9), pname),
+                                *args3))
         r.enable_sensitivities(False)
 
 
